@@ -398,6 +398,10 @@ func (f *authFake) token(cs *callState, req *http.Request, body []byte) (*http.R
 		msg = "G," + tok(u.String()) + "," + showAuthz(req.Header["Authorization"]) + "," + tok(scope) + "," + tok(service)
 	}
 	cs.msgs = append(cs.msgs, withExtras(msg, ex))
+	if req.URL.Host == authRedirectHost {
+		// where a redirecting token server sent the client: it is nobody the registry named
+		return mkResp(req, 500, nil, "not a token server"), nil
+	}
 	r := cs.script.tok[phase][attempt][method]
 	switch r.kind {
 	case 'f':
@@ -407,6 +411,9 @@ func (f *authFake) token(cs *callState, req *http.Request, body []byte) (*http.R
 	case 's':
 		if r.status == 401 {
 			cs.tok401[phase] = true
+		}
+		if r.status == 307 || r.status == 308 {
+			return mkResp(req, r.status, http.Header{"Location": {"https://" + authRedirectHost + "/token"}}, ""), nil
 		}
 		return mkResp(req, r.status, nil, "fake token server body"), nil
 	}
@@ -426,6 +433,9 @@ func (f *authFake) token(cs *callState, req *http.Request, body []byte) (*http.R
 	data, _ := json.Marshal(m)
 	return mkResp(req, 200, http.Header{"Content-Type": {"application/json"}}, string(data)), nil
 }
+
+// authRedirectHost is where a token server answering 307/308 points.
+const authRedirectHost = "redirected.example"
 
 // ---- configuration ----
 
